@@ -86,40 +86,45 @@ def r2_letters(ctx):
         ok = all(_returns(a[1]) is False for a in else_arms)
     yield Ob('syntax:is_syntax_valid fall-through rejects', ok, ctx.floc(fn, last),
              '' if ok else 'an unknown note letter is not rejected')
-    # position slices of _split_syntax tile the digits: i -> [2i+1 : 2i+3], for i in range(len(digits)//2)
-    slices = [n for n in ast.walk(sp) if isinstance(n, ast.Subscript) and isinstance(n.slice, ast.Slice)
-              and path_of(n.value) == 'syntax' and n.slice.lower is not None and n.slice.upper is not None]
-    loops = [n for n in ast.walk(sp) if isinstance(n, ast.For)]
-    if len(slices) != 1 or len(loops) != 1:
-        raise AnalysisError('map_if:segment_if._split_syntax: position-slice idiom not recognised')
-    sl, lp = slices[0], loops[0]
-    var = lp.target.id if isinstance(lp.target, ast.Name) else None
-    bad = []
-    for i in range(0, 6):
-        try:
-            lo = A.ev(sl.slice.lower, {var: i})
-            hi = A.ev(sl.slice.upper, {var: i})
-        except A.NotClosed as e:
-            raise AnalysisError('_split_syntax slice bounds not closed: %s' % e)
-        if (lo, hi) != (2 * i + 1, 2 * i + 3):
-            bad.append((i, lo, hi))
-    yield Ob('map_if:segment_if._split_syntax position slices tile the note', not bad, ctx.floc(sp, sl),
-             '' if not bad else 'slice for i=%d is [%d:%d], expected [%d:%d]' % (bad[0][0], bad[0][1], bad[0][2], 2 * bad[0][0] + 1, 2 * bad[0][0] + 3))
-    # loop bound: range(len(syntax[1:]) // 2) evaluated for notes of 2..6 positions
-    bad = []
+    # what _split_syntax returns for notes of 2..6 positions, by constant propagation through the function (loop or
+    # comprehension): the letter followed by every two-digit position in order
+    from ..absint import explore
+    g = ctx.cfg(sp)
+
+    def split(text):
+        outs = []
+
+        def on_node(nd, env):
+            if nd.kind == 'return':
+                if nd.ast.value is None:
+                    outs.append(None)
+                else:
+                    try:
+                        outs.append(A.ev(nd.ast.value, env))
+                    except A.NotClosed as e:
+                        raise AnalysisError('_split_syntax: returned value not closed: %s' % e)
+
+        def unk(nd, env):
+            raise AnalysisError('_split_syntax: test not closed: %s' % norm(nd.ast))
+        explore(g, {'syntax': text}, on_node=on_node, on_unknown=unk)
+        if len(outs) != 1:
+            raise AnalysisError('_split_syntax: %d results for %r' % (len(outs), text))
+        return outs[0]
+    bad_t, bad_n = [], []
     for npos in range(2, 7):
-        text = 'P' + '01' * npos
-        try:
-            it = lp.iter
-            if not (isinstance(it, ast.Call) and path_of(it.func) == 'range' and len(it.args) == 1):
-                raise A.NotClosed('range')
-            cnt = A.ev(it.args[0], {'syntax': text})
-        except A.NotClosed as e:
-            raise AnalysisError('_split_syntax loop bound not closed: %s' % e)
-        if cnt != npos:
-            bad.append((npos, cnt))
-    yield Ob('map_if:segment_if._split_syntax reads every position', not bad, ctx.floc(sp, lp),
-             '' if not bad else 'a note with %d positions yields %d' % bad[0])
+        poss = [3 * k + 1 for k in range(npos)]
+        text = 'P' + ''.join('%02d' % p_ for p_ in poss)
+        got = split(text)
+        want = ('P',) + tuple(poss)
+        if got is None or tuple(got) != want:
+            if got is not None and len(got) != len(want):
+                bad_n.append((npos, len(got) - 1))
+            else:
+                bad_t.append((text, got))
+    yield Ob('map_if:segment_if._split_syntax position slices tile the note', not bad_t, ctx.floc(sp),
+             '' if not bad_t else 'note %r is split into %s' % bad_t[0])
+    yield Ob('map_if:segment_if._split_syntax reads every position', not bad_n, ctx.floc(sp),
+             '' if not bad_n else 'a note with %d positions yields %d' % bad_n[0])
 
 
 def _returns(stmts):
